@@ -7,8 +7,8 @@ MCOptionSeqs == {<<>>, <<"PAD">>}
 MCOptionNone == {<<>>}
 MCRcodes == {-1, 0, 3, 16, 4095, 4096}
 AllRcodes == -1..4096
-\* 0x0100 RD, 0x8180 QR RD RA, 0x0030 AD CD, 0x2800 opcode UPDATE, 0x784F opcode 15 + Z + rcode 15
-MCFlags == {0, 256, 33152, 48, 10240, 30799}
+\* 0x0100 RD, 0x0180 RD RA, 0x8180 QR RD RA, 0x0030 AD CD, 0x2800 opcode UPDATE, 0x784F opcode 15 + Z + rcode 15
+MCFlags == {0, 256, 384, 33152, 48, 10240, 30799}
 QDef == [id |-> 7, flags |-> 256, ue |-> -2, hasef |-> FALSE, ext |-> 0, z |-> 0, haspl |-> FALSE, payload |-> 0,
          hasrp |-> FALSE, reqpay |-> 0, hasops |-> FALSE, options |-> <<>>, pad |-> 0, dnssec |-> FALSE]
 QArgs == {QDef,
@@ -27,7 +27,9 @@ QFull == {a \in [id : {7}, flags : {256}, ue : {-2, -1, 0, 1}, hasef : BOOLEAN, 
                  pad : {0, 128}, dnssec : BOOLEAN] :
              /\ (a.hasef <=> (a.ext = 18 /\ a.z = 32769)) /\ (~a.hasef => a.ext = 0 /\ a.z = 0)
              /\ (a.haspl <=> a.payload = 512) /\ (a.hasrp <=> a.reqpay = 4096) /\ (a.hasops <=> a.options = <<"NSID">>)}
-QSets == [small |-> {QDef, [QDef EXCEPT !.ue = 0]}, mid |-> QArgs, full |-> QFull]
+QFew == {QDef, [QDef EXCEPT !.ue = 1, !.hasef = TRUE, !.ext = 18, !.z = 32769, !.id = 65535],
+         [QDef EXCEPT !.haspl = TRUE, !.payload = 512, !.hasops = TRUE, !.options = <<"NSID", "PAD">>, !.pad = 128]}
+QSets == [few |-> QFew, small |-> {QDef, [QDef EXCEPT !.ue = 0]}, mid |-> QArgs, full |-> QFull]
 CONSTANT QSel
 MCInit == /\ \E a \in QSets[QSel], on \in BOOLEAN, fr \in Frees : (on => a.pad > 0 /\ a.ue = -2) /\ m = AfterQuery(a, on, fr)
           /\ ncalls = 0 /\ last = <<"make_query">> /\ res = "ok"
